@@ -540,6 +540,11 @@ func (e *Engine) verifyFunction(key string, ct *Contract) (res *FuncResult) {
 	if !anyRet && !ct.NoReturn && len(ct.Ensures) > 0 {
 		vc.errs = append(vc.errs, fmt.Sprintf("%s: no reachable return", key))
 	}
+	for ai, as := range ct.Asserts {
+		if !vc.declared[fmt.Sprintf("assert:%d", ai)] {
+			vc.errs = append(vc.errs, fmt.Sprintf("%s: assert anchor %q matched no reachable instruction (contract no longer applies)", key, as.Label))
+		}
+	}
 	for _, c := range ct.Cuts {
 		if !vc.cutsHit[c] {
 			vc.errs = append(vc.errs, fmt.Sprintf("%s: cut anchor %q matched no instruction (contract no longer applies)", key, c))
